@@ -156,7 +156,8 @@ class Result:
             for n, g, w in broken:
                 print("ANALYSIS-BROKEN property=%s: %s: matched %d, floor %d"
                       % (self.prop, n, g, w))
-            return 2
+            if not unlisted:
+                return 2
         if unlisted:
             for v in unlisted:
                 print("  %s at %s: %s" % (v["key"], v["where"], v["what"]))
